@@ -58,6 +58,9 @@ T = {
  "C16": ("closed-form identity monitor (defining identities, Pizzetti, Somigliana end values, symmetry, monotone in height, rotating-sphere limit)",
          "Runtime monitoring: reference ellipsoids drawn over a in 1e5..1e8 m, f in {0, 1e-6..0.2}, GM over 10 decades, m up to 0.05 (both rotation senses), the nine bodies of the constants table and the WGS class are constructed with the real classes; derived constants, Pizzetti's theorem, gamma(0)=ge, gamma(+-90)=gp, positivity, latitude symmetry, strict decrease in height up to 0.5 % of a and closeness to the rotating-sphere values for f <= 1e-3 (incl. f = 0) are checked at fixed and random latitudes.",
          "NumPy; closed forms evaluated by the harness; 0 < f < 1e-6 is outside the property's domain (q0 cancellation), not generated", "5/C16"),
+ "C17": ("round-trip and isometry monitors on the frame transformations (geodetic/ECEF/ENU/AER/DCA/NED, LLF matrices)",
+         "Runtime monitoring: geodetic points stratified over the equator and its 1e-12..1e-5 deg neighbourhood, both poles and their neighbourhood, longitudes 0/+-90/+-180 and heights -10..1000 km are converted geodetic->ECEF (vs an independent closed form)->geodetic and back; random local origins, offsets to 1e6 m and angles over +-360 deg exercise ECEF<->ENU (identity, isometry, origin->0), ENU<->AER (degrees and radians), ENU<->DCA, NED<->ENU (vector and rows) and the LLF rotation matrices (transpose, orthogonal, det +1).",
+         "NumPy; latitude tolerance 1e-7 deg / height 1e-4 m as allowed by the documented 1e-8 rad stopping rule; longitude at the poles compared through the ECEF point", "5/C17"),
 }
 
 def main():
